@@ -231,6 +231,73 @@ pub fn judge(s: &St, name: &str, r: &Result<St, String>) -> Option<(String, Stri
     None
 }
 
+/// One LIVE table object kept across a long run of events (every other exploration of this file rebuilds the object
+/// from its observable state before each event, so a private field the handler keeps between events - a streak
+/// counter, a remembered position - would be reset at every step). Every step is judged like any other transition.
+fn live_run(n: usize, names: &[String], rep: &Report) -> u64 {
+    let s0 = St { n, sel: Some(0), quit: false, search: false, sort: 3, asc: false, query: String::new(), width: 0 };
+    let m = tokio::sync::Mutex::new(build(&s0));
+    let mut g = m.try_lock().expect("fresh mutex");
+    let mut before = read_back(&g);
+    let mut steps = 0;
+    for (i, name) in names.iter().enumerate() {
+        let Some(ev) = event_by_name(name) else { continue };
+        let r = guarded(|| {
+            let _ = crate::update(&mut g, ev);
+        })
+        .map(|_| read_back(&g));
+        steps += 1;
+        if let Some((class, what)) = judge(&before, name, &r) {
+            let short: Vec<&String> = names[..=i].iter().collect();
+            rep.violation(&format!("live:{class}"), format!("event {i} of a run on one live table: {what}"), json!({"kind": "live", "rows": n, "events": short}));
+            return steps;
+        }
+        match r {
+            Ok(t) => before = t,
+            Err(_) => return steps,
+        }
+    }
+    steps
+}
+
+/// held keys (one event repeated 300 times) and two-phase runs A^n B^m over the navigation and mode keys, for n, m on
+/// either side of 16, 32 and 64, on tables of 0, 1, 2, 3, 5 and 13 rows
+fn live_runs(ctx: &Ctx, rep: &Report) -> u64 {
+    let all: Vec<String> = alphabet().into_iter().map(|(n, _)| n).collect();
+    let nav: Vec<String> = ["Char(j)", "Char(k)", "Up", "Down", "Char(g)", "Home", "PageUp", "Char(/)", "Char(x)", "Backspace", "Enter", "Esc", "Char(-)", "Char(a)"].iter().map(|s| s.to_string()).filter(|s| all.contains(s)).collect();
+    let lens: Vec<usize> = if ctx.thorough() { vec![1, 2, 15, 16, 17, 18, 31, 32, 33, 34, 63, 64, 65, 66, 129, 257] } else { vec![1, 2, 16, 17, 18, 33, 34, 65, 66] };
+    let mut runs: Vec<Vec<String>> = Vec::new();
+    for a in &all {
+        runs.push(std::iter::repeat(a.clone()).take(300).collect());
+    }
+    for a in &nav {
+        for b in &nav {
+            if a == b {
+                continue;
+            }
+            for &n in &lens {
+                for &m in &lens {
+                    let mut r: Vec<String> = std::iter::repeat(a.clone()).take(n).collect();
+                    r.extend(std::iter::repeat(b.clone()).take(m));
+                    runs.push(r);
+                }
+            }
+        }
+    }
+    let cnt = std::sync::atomic::AtomicU64::new(0);
+    par_items(ctx.threads, runs.len(), |i| {
+        for rows in [0usize, 1, 2, 3, 5, 13] {
+            cnt.fetch_add(live_run(rows, &runs[i], rep), std::sync::atomic::Ordering::Relaxed);
+            if stopped() {
+                return;
+            }
+        }
+    });
+    let c = cnt.load(std::sync::atomic::Ordering::Relaxed);
+    rep.part("runs on one live table object: held keys (x300) and two-phase runs A^n B^m", c, json!({"runs": runs.len(), "rows": [0, 1, 2, 3, 5, 13], "phase_lengths": lens}));
+    c
+}
+
 fn starts(n: usize) -> Vec<St> {
     // main()'s initial state first, then every consistent non-initial start
     let mut v = vec![St { n, sel: Some(0), quit: false, search: false, sort: 3, asc: false, query: String::new(), width: 0 }];
@@ -360,6 +427,7 @@ pub fn run(ctx: &Ctx, rep: &Report) {
         total_trans += tr.load(std::sync::atomic::Ordering::Relaxed);
         rep.part("deep unabstracted dfs, 9-event alphabet", cnt.load(std::sync::atomic::Ordering::Relaxed), json!({"depth": deep}));
     }
+    total_trans += live_runs(ctx, rep);
     rep.sample(json!({"events": ["Char(/)", "Char(x)", "Enter", "Char(j)"], "from": "initial state of main(), 3 rows"}));
     rep.state(total_states);
     rep.trans(total_trans);
@@ -406,6 +474,15 @@ pub fn replay(w: &Value, rep: &Report) {
     if w["kind"].as_str() == Some("render") {
         replay_render(w, rep);
         rep.sample(w.clone());
+        rep.outcome("replayed", 1);
+        return;
+    }
+    if w["kind"].as_str() == Some("live") {
+        let evs: Vec<String> = w["events"].as_array().map(|a| a.iter().filter_map(|x| x.as_str().map(String::from)).collect()).unwrap_or_default();
+        let n = live_run(w["rows"].as_u64().unwrap_or(0) as usize, &evs, rep);
+        rep.trans(n);
+        rep.state(1);
+        rep.sample(json!({"kind": "live", "rows": w["rows"], "events": evs.len()}));
         rep.outcome("replayed", 1);
         return;
     }
